@@ -111,6 +111,7 @@ class WrapSpec:
     lifts: List[Lift] = field(default_factory=list)
     foreach: List[Tuple[str, int]] = field(default_factory=list)          # (fragment, ordinal of the `for` inside it): rule R7 / R23
     scans: List[Tuple[str, int]] = field(default_factory=list)            # (fragment, ordinal of the `.position(` inside it): rule R13
+    optmaps: List[Tuple[str, int]] = field(default_factory=list)          # (fragment, ordinal of the `.map(` inside it): rule R29
     ensure_err: str = ""                                                   # rule R28: anyhow ensure!(c, ..) -> if !(c) { return Err(<this>) }
     frag_loops: Dict[str, Dict[int, Dict[str, List[str]]]] = field(default_factory=dict)   # fragment -> loop ordinal -> entries
 
@@ -253,6 +254,9 @@ def parse(path: str) -> UnitSpec:
             elif head == "scan":
                 a, b = rest.split()
                 cur.scans.append((a, int(b)))
+            elif head == "optmap":
+                a, b = rest.split()
+                cur.optmaps.append((a, int(b)))
             elif head == "ensure_macro":
                 cur.ensure_err = rest.strip()
             elif head == "loop":
@@ -268,9 +272,10 @@ def parse(path: str) -> UnitSpec:
                         lab = f"{u.prop}.{lab}"
                     val = f"[{lab}] {lm.group(2).strip()}"
                 cur.frag_loops.setdefault(m.group(1), {}).setdefault(int(m.group(2)), {}).setdefault(m.group(3), []).append(val)
-            elif head == "subst":
+            elif head in ("subst", "subst?"):
+                # `subst?`: applied where the text occurs, no anchor lost where it does not (a rewrite the body may or may not need)
                 a, _, b = rest.partition("=>")
-                cur.substs.append((a.strip(), b.strip()))
+                cur.substs.append((a.strip(), b.strip()) if head == "subst" else ("?" + a.strip(), b.strip()))
             elif head == "lift":
                 m = re.match(r"^(chain|let)\s+([A-Za-z_][A-Za-z0-9_]*)(?:#(\d+)|\s+(\d+))?\s+(?:with\s+\((.*?)\)\s+)?as\s+(.*)$", rest, re.S)
                 if not m:
